@@ -3,6 +3,10 @@ mod clock;
 mod core;
 mod e1;
 mod e2;
+mod coe;
+mod eeprom;
+mod net;
+mod sim;
 mod report;
 use vx_sizes as sizes;
 
@@ -35,6 +39,23 @@ fn main() {
             i += 1;
         }
         i += 1;
+    }
+    if args[0] == "simtest" {
+        checks::simtest::run();
+        checks::simtest::run2();
+        return;
+    }
+    // Engine watchdog: a hang is a machinery error, never a verdict.
+    {
+        let limit = std::env::var("VX_WATCHDOG_S")
+            .ok()
+            .and_then(|s| s.parse::<u64>().ok())
+            .unwrap_or(if thorough { 5400 } else { 420 });
+        std::thread::spawn(move || {
+            std::thread::sleep(std::time::Duration::from_secs(limit));
+            eprintln!("MACHINERY-ERROR: watchdog: check did not finish within {} s", limit);
+            std::process::exit(2);
+        });
     }
     let code = if args[0] == "replay" {
         if args.len() < 2 {
